@@ -539,7 +539,12 @@ func c18ResetOnLevelDB(c *Ctx) {
 			c.Note("reset to %q was accepted (not judged)", trunc(dsn, 40))
 			return // the node now runs on another store; nothing further to compare
 		}
-		after, err := view()
+		var after string
+		if hung, stk := runOrHang(func() { after, err = view() }); hung {
+			wit["stack"] = trunc(stk, 1500)
+			c.Violate("C18/refused-request-left-the-node-unusable:/resetState", fmt.Sprintf("after the refused reset to %q the node's API never answers again: the request is parked on a mutex for good", trunc(dsn, 40)), wit)
+			return
+		}
 		if err != nil {
 			c.Violate("C18/refused-request-left-the-node-unusable:/resetState", fmt.Sprintf("after the refused reset to %q the node answers: %v", trunc(dsn, 40), err), wit)
 			return
